@@ -88,6 +88,48 @@ def export_text(o, tag):
     return f.getvalue()
 
 
+def document_cycle(case):
+    """the real entry points: NeuroMLWriter.write -> NeuroMLLoader.load, three cycles"""
+    import os
+    import tempfile
+    from neuroml.loaders import NeuroMLLoader
+    from neuroml.writers import NeuroMLWriter
+    r = {}
+    d = tempfile.mkdtemp(prefix="verif_c01_")
+    try:
+        doc = construct(case["tree"])
+        r["obj"] = dump(doc)
+        texts = []
+        cur = doc
+        for i in range(3):
+            fn = os.path.join(d, "cycle%d.nml" % i)
+            before = dump(cur)
+            NeuroMLWriter.write(cur, fn)
+            if dump(cur) != before:
+                r["write_modified_document"] = True
+            texts.append(open(fn).read())
+            fn2 = os.path.join(d, "cycle%d_again.nml" % i)
+            NeuroMLWriter.write(cur, fn2)
+            if open(fn2).read() != texts[-1]:
+                r["second_write_differs"] = True
+            cur = NeuroMLLoader.load(fn)
+            r["back%d" % i] = dump(cur)
+        r["text0"] = texts[0] if len(texts[0]) < 3000 else texts[0][:3000]
+        r["bytes_stable"] = texts[1] == texts[2]
+        r["bytes_first_equal"] = texts[0] == texts[1]
+    except Exception as e:  # noqa
+        import traceback
+        r["err"] = type(e).__name__ + ": " + str(e)[:300] + " @ " + traceback.format_exc()[-400:]
+    finally:
+        import shutil
+        shutil.rmtree(d, ignore_errors=True)
+    return r
+
+
+if P.get("mode") == "document":
+    print(json.dumps({"results": [document_cycle(c) for c in P["cases"]]}))
+    sys.exit(0)
+
 res = []
 for case in P["cases"]:
     r = {}
